@@ -215,6 +215,11 @@ def type_text(spec, name, with_dx):
     for vi, b in enumerate(bodies):
         m = "#[default] " if (with_dx and t == "Default" and vi == spec["dv"] and len(bodies) > 1) else ""
         vs.append(f"{m}V{vi}{b}")
+    if spec.get("tl"):
+        # a value on the type decides: no variant is built, the marked variant's fields are not used either
+        vs.append("Zz")
+        if with_dx:
+            head += "#[default(Self::Zz)]\n"
     return head + f"pub enum {name}{g}{wh} {{ " + ", ".join(vs) + " }"
 
 
@@ -222,6 +227,8 @@ def used_fields(spec):
     """The documented rule: which fields does the derived code actually use?"""
     t = spec["trait"]
     out = []
+    if spec.get("tl"):
+        return out
     for vi, v in enumerate(spec["variants"]):
         if t == "Default" and spec["kind"] == "enum" and vi != spec["dv"]:
             continue
@@ -442,6 +449,11 @@ def core(rng):
     for dv in (0, 1, 2):
         specs.append({"trait": "Default", "kind": "enum", "entry": "attr", "where_tr": False, "dv": dv, "variants": [
             {"style": "tuple", "fields": [{"ft": "T", "mode": "plain"}]}, {"style": "named", "fields": [{"ft": "U", "mode": "plain"}]},
+            {"style": "unit", "fields": []}]})
+    # .. and none at all when the type carries the value (with and without a marked variant)
+    for dv, entry in ((0, "attr"), (1, "derive"), (2, "attr")):
+        specs.append({"trait": "Default", "kind": "enum", "entry": entry, "where_tr": False, "dv": dv, "tl": True, "variants": [
+            {"style": "tuple", "fields": [{"ft": "T", "mode": "plain"}, {"ft": "OptT", "mode": "plain"}]}, {"style": "named", "fields": [{"ft": "U", "mode": "plain"}]},
             {"style": "unit", "fields": []}]})
     return specs
 
